@@ -2,3 +2,4 @@ pub mod c04;
 pub mod c15;
 pub mod c08;
 pub mod c07;
+pub mod c14;
